@@ -35,7 +35,19 @@ func (r *renderer) qual(p *Pkg) string {
 	return p.Name + "."
 }
 
-func (r *renderer) tname(t *TypeDecl) string { return r.qual(t.Pkg) + t.Name }
+func (r *renderer) tname(t *TypeDecl) string {
+	if t.FuncLocal {
+		return t.Name // declared in the enclosing block
+	}
+	return r.qual(t.Pkg) + t.Name
+}
+
+// localAliasLine emits "type lAlN = pkg.T" for a site whose mention goes through a function-local alias.
+func (r *renderer) localAliasLine(s *Site) {
+	if s.Ref != nil && s.Ref.Via != nil && s.Ref.Via.FuncLocal {
+		r.emit("type %s = %s%s", s.Ref.Via.Name, r.ref(s.Ref.Via.AliasOf), tag(s.Ref.Via.ID))
+	}
+}
 
 // ref renders a type mention.
 func (r *renderer) ref(tr *TypeRef) string {
@@ -135,6 +147,20 @@ func (r *renderer) docLines(t *TypeDecl) []string {
 	for _, l := range t.Implements {
 		d = append(d, "// @implements "+l)
 	}
+	return respellOpener(d, t.DocPrefix)
+}
+
+// respellOpener rewrites the "// " in front of annotation lines (the grammar
+// allows any blanks, or none, between // and @; gofmt normalises them).
+func respellOpener(d []string, prefix string) []string {
+	if prefix == "" {
+		return d
+	}
+	for i, l := range d {
+		if strings.HasPrefix(l, "// @") {
+			d[i] = prefix + l[3:]
+		}
+	}
 	return d
 }
 
@@ -195,7 +221,7 @@ func (r *renderer) typeSpec(t *TypeDecl, prefix string) {
 				r.emit("%s", d)
 			}
 			if f.Mutable {
-				r.emit("// @mutable")
+				r.emit("%s", respellOpener([]string{"// @mutable"}, t.DocPrefix)[0])
 			}
 			ty := f.Basic
 			if f.Ref != nil {
@@ -278,7 +304,7 @@ func funcDoc(f *FuncDecl) []string {
 			d = append(d, "// @packageonly "+strings.Join(l, ", "))
 		}
 	}
-	return d
+	return respellOpener(d, f.DocPrefix)
 }
 
 func (r *renderer) funcDecl(f *FuncDecl) {
@@ -491,6 +517,7 @@ func opnd(v *Var) string { return v.Name }
 
 // site renders one site line (plus filler lines where Go needs them).
 func (r *renderer) site(s *Site) {
+	r.localAliasLine(s)
 	r.before(&s.Node)
 	s.File = r.f
 	t := r.trail(&s.Node) + tag(s.ID)
@@ -504,6 +531,9 @@ func (r *renderer) site(s *Site) {
 
 // oneLiner renders `if true { a /* s1 */; b /* s2 */ }` on a single line.
 func (r *renderer) oneLiner(o *OneLiner) {
+	for _, s := range o.Sites {
+		r.localAliasLine(s)
+	}
 	r.before(&o.Node)
 	o.File = r.f
 	var parts []string
